@@ -144,7 +144,10 @@ class Bits:
                 # Initialise with s zero bits.
                 if auto < 0:
                     raise bitstring.CreationError(f"Can't create bitstring of negative length {auto}.")
-                self._bitstore = BitStore(int(auto))
+                try:
+                    self._bitstore = BitStore(int(auto))
+                except OverflowError:
+                    raise bitstring.CreationError(f"Can't create bitstring of length {auto} as it is too large.")
                 self._bitstore.setall(0)
                 return
             self._setauto(auto, length, offset)
